@@ -53,6 +53,8 @@ type Node struct {
 	Signal       int  `json:"signal,omitempty"` // die by this signal instead of exiting
 	// EchoEnv: names of environment variables whose values are written to standard output first ("NAME=value\n").
 	EchoEnv []string `json:"echo_env,omitempty"`
+	// ChattyMs: while it lives (LiveMs) the process writes a line to its standard output every ChattyMs milliseconds
+	ChattyMs int `json:"chatty_ms,omitempty"`
 }
 
 // Count returns the number of processes of the tree.
@@ -177,7 +179,14 @@ func runNode(s *Script, path string, n *Node) {
 			time.Sleep(time.Duration(w.PauseUs) * time.Microsecond)
 		}
 	}
-	if n.LiveMs > 0 {
+	if n.LiveMs > 0 && n.ChattyMs > 0 {
+		for end := time.Now().Add(time.Duration(n.LiveMs) * time.Millisecond); time.Now().Before(end); {
+			if _, werr := syscall.Write(1, []byte("still here\n")); werr != nil && werr != syscall.EINTR && werr != syscall.EAGAIN {
+				os.Exit(141) // nobody reads any more: what SIGPIPE does to an ordinary program
+			}
+			time.Sleep(time.Duration(n.ChattyMs) * time.Millisecond)
+		}
+	} else if n.LiveMs > 0 {
 		time.Sleep(time.Duration(n.LiveMs) * time.Millisecond)
 	}
 	if n.WaitChildren {
